@@ -694,7 +694,14 @@ func (e *c11Env) doSwap(a int, id uint64, ps []baskettypes.SwapPair) bool {
 
 func (e *c11Env) doCreate(b baskettypes.Basket) (uint64, bool) {
 	before := e.snap(-1)
-	err := withCache(e.ctx, func(c sdk.Context) error { return e.k.CreateBasket(c, b) })
+	// alternately the keeper call and the enactment of the CreateBasket proposal (router, handler)
+	var err error
+	if e.r.Rng.Intn(2) == 0 {
+		err = withCache(e.ctx, func(c sdk.Context) error { return e.k.CreateBasket(c, b) })
+	} else {
+		err = e.w.Enact(e.ctx, 0, baskettypes.NewProposalCreateBasket(b))
+		e.r.Count("create:through-the-proposal")
+	}
 	out := "err"
 	var id uint64
 	if err == nil {
@@ -713,7 +720,13 @@ func (e *c11Env) doCreate(b baskettypes.Basket) (uint64, bool) {
 
 func (e *c11Env) doEdit(b baskettypes.Basket) bool {
 	before := e.snap(-1)
-	err := withCache(e.ctx, func(c sdk.Context) error { return e.k.EditBasket(c, b) })
+	var err error
+	if e.r.Rng.Intn(2) == 0 {
+		err = withCache(e.ctx, func(c sdk.Context) error { return e.k.EditBasket(c, b) })
+	} else {
+		err = e.w.Enact(e.ctx, 0, baskettypes.NewProposalEditBasket(b))
+		e.r.Count("edit:through-the-proposal")
+	}
 	e.op("basket edit "+c11Cfg(b), okErr(err))
 	e.r.Count("edit:" + okErr(err))
 	e.checkInv(before, e.snap(-1), "edit")
@@ -869,7 +882,7 @@ func (e *c11Env) randCfg(n int) baskettypes.Basket {
 	mins := []int64{0, 1, 1, 1, 1, 1, 1, 1, 10, 1000}
 	periods := []uint64{5, 20, 60, 86400, 0, 2_000_000_000, 9_000_000_000, 31_557_600} // also longer than the chain's unix time: the window starts before 1970
 	return baskettypes.Basket{
-		Suffix: fmt.Sprintf("s%d", n), Description: "c11", Amount: sdk.ZeroInt(),
+		Suffix: fmt.Sprintf([]string{"s%d", "s%d", "USD%d", "Mix%d"}[rng.Intn(4)], n), Description: "c11", Amount: sdk.ZeroInt(),
 		SwapFee: decS(e.pick(c11Fees)), SlipppageFeeMin: decS(e.pick(c11Slips)), TokensCap: cap,
 		LimitsPeriod: periods[rng.Intn(len(periods))],
 		MintsMin:     sdk.NewInt(mins[rng.Intn(len(mins))]), MintsMax: e.randLimit(), MintsDisabled: rng.Intn(40) == 0,
@@ -1018,6 +1031,31 @@ func (e *c11Env) genBurn(id uint64) {
 	d := bd
 	if rng.Intn(40) == 0 {
 		d = "ukex"
+	}
+	if len(e.ids) > 1 && (rng.Intn(10) == 0 || len(e.ids) >= 11 && rng.Intn(2) == 0) {
+		// the token of ANOTHER basket offered to this one - by preference one whose id starts with the digits of this id
+		var others, related []uint64
+		for _, o := range e.ids {
+			if o != id {
+				others = append(others, o)
+				if strings.HasPrefix(fmt.Sprint(o), fmt.Sprint(id)) || strings.HasPrefix(fmt.Sprint(id), fmt.Sprint(o)) {
+					related = append(related, o)
+				}
+			}
+		}
+		if len(related) > 0 {
+			others = related
+		}
+		if ob, err := e.k.GetBasketById(e.ctx, others[rng.Intn(len(others))]); err == nil {
+			d = ob.GetBasketDenom()
+			for _, hh := range e.holders {
+				if hb := e.bal(e.w.addrs[hh], d); hb.Sign() > 0 {
+					a, amt = hh, e.randAmt(hb)
+					break
+				}
+			}
+			e.r.Count("burn:token-of-another-basket")
+		}
 	}
 	e.doBurn(a, id, sdk.Coin{Denom: d, Amount: sdkmath.NewIntFromBigInt(amt)})
 }
@@ -1335,6 +1373,9 @@ func c11Episodes(r *Rec, episodes, steps int) {
 		}
 		r.Mark(fmt.Sprintf("episode %d", ep))
 		nb := 1 + r.Rng.Intn(2)
+		if ep%12 == 5 {
+			nb = 11 // ids 1, 10 and 11 share their first digit
+		}
 		for i := 0; i < nb; i++ {
 			for try := 0; try < 3; try++ {
 				cfg := e.randCfg(i)
@@ -1365,6 +1406,9 @@ func c11Episodes(r *Rec, episodes, steps int) {
 		}
 		for s := 0; s < steps; s++ {
 			id := e.ids[r.Rng.Intn(len(e.ids))]
+			if len(e.ids) >= 11 && r.Rng.Intn(3) > 0 {
+				id = e.ids[[]int{0, 0, 9, 10}[r.Rng.Intn(4)]]
+			}
 			// a switched-off basket or token is switched on again by an edit after a while, so that long
 			// histories do not degenerate into rejected messages
 			if b, err := e.k.GetBasketById(e.ctx, id); err == nil && r.Rng.Intn(5) == 0 {
